@@ -1,8 +1,8 @@
 """C03 -- see DESIGN.md section 5.  Deductive targets are added below the bounded import."""
 PROP = "C03"
 LEVEL = 'other'
-EXPLANATION = ("Deductive: DefaultResolver.get_arguments_to_test returns the longest prefix of plain (non-empty, non-option, non '--') tokens and leaves the iterator just behind it (loop invariant; 13 of 14 obligations discharged, one quantified sequence fact is undecided by z3/cvc5 and covered by the bounded tier); CommandCollection.__contains__ / get look a name up as command name, then short name, then alias (and raise NoSuchCommandException exactly for unknown names); DefaultResolver.process_arguments selects nothing iff the first leading token names no command and otherwise starts the default rule from wcmd = the command reached by the longest prefix of the leading tokens that names a path (recursive spec function over an abstract lookup view, loop invariant); process_default_commands returns nothing for an empty collection and otherwise a result for fp = the first default command whose format can parse the arguments, else the first one (recursive spec function, loop invariant over the iteration of the collection); process_default_sub_commands / process_options / process_arguments then select exactly sel(c) = c's default sub-command by that rule, else c itself, for c = wcmd(...) -- whatever the options are.  Bounded: generated command trees x command lines compared with an independent walk / default-rule spec, alias and option-tail invariance.")
-LEVEL_NOTE = ('assumes: the abstract lookup view cc_has/cc_get of a collection is the dict-level lookup proved for __contains__/get (linked by ghost definitions; the resolver changes no collection: frame obligations); `parsable(command, raw args)` is an uninterpreted predicate (ResolveResult.is_parsable assumed to compute it; the parser is C01/C02); iteration over a CommandCollection yields its commands in registration order (assumed view cc_cmds); DefaultResolver.resolve itself (the composition, the undefined-command error) is bounded only; Seq(String) quantified invariants are at the limit of the solvers')
+EXPLANATION = ("Deductive: DefaultResolver.get_arguments_to_test returns the longest prefix of plain (non-empty, non-option, non '--') tokens and leaves the iterator just behind it (loop invariant over the iterator position, stated over the immutable token sequence); CommandCollection.__contains__ / get look a name up as command name, then short name, then alias (and raise NoSuchCommandException exactly for unknown names); DefaultResolver.process_arguments selects nothing iff the first leading token names no command and otherwise starts the default rule from wcmd = the command reached by the longest prefix of the leading tokens that names a path (recursive spec function over an abstract lookup view, loop invariant); process_default_commands returns nothing for an empty collection and otherwise a result for fp = the first default command whose format can parse the arguments, else the first one (recursive spec function, loop invariant over the iteration of the collection); process_default_sub_commands / process_options / process_arguments then select exactly sel(c) = c's default sub-command by that rule, else c itself, for c = wcmd(...) -- whatever the options are.  Bounded: generated command trees x command lines compared with an independent walk / default-rule spec, alias and option-tail invariance.")
+LEVEL_NOTE = ('assumes: the abstract lookup view cc_has/cc_get of a collection is the dict-level lookup proved for __contains__/get (linked by ghost definitions; the resolver changes no collection: frame obligations); `parsable(command, raw args)` is an uninterpreted predicate (ResolveResult.is_parsable assumed to compute it; the parser is C01/C02); iteration over a CommandCollection yields its commands in registration order (assumed view cc_cmds); DefaultResolver.resolve itself (the composition, the undefined-command error) is bounded only')
 from . import resolver_contracts as rc
 from . import C05_contracts as c5
 TARGETS = [rc.GAT, c5.M_CC + ":CommandConfig.default", c5.M_CC + ":CommandConfig.anonymous",
